@@ -971,3 +971,241 @@ Theorem reachable_good h : reachable h -> Good h.
 Proof. intros (l & g & ops & ->). rewrite <- runx_run. apply good_runx, good_init. Qed.
 Theorem reachable_q_good h : reachable_q h -> Good h.
 Proof. intros (l & g & ops & ->). rewrite <- runx_qrun. apply good_runx, good_init. Qed.
+
+Lemma opt_case {A} (x : option A) : (exists a, x = Some a) \/ x = None.
+Proof. destruct x; eauto. Qed.
+
+(* ------------------------------------------------------------------ 1. the queue only grows while disconnected *)
+Definition disc (h : hub) (sid : N) : Prop := exists s, get_sess h sid = Some s /\ s_conn s = None.
+Definition pend (h : hub) (sid : N) : list smsg :=
+  match get_sess h sid with Some s => s_pending s | None => [] end.
+
+Lemma disc_live h sid : disc h sid -> live h sid.
+Proof. intros [s [Hs _]]. eexists; exact Hs. Qed.
+
+(* If a session has no connection after a step, everything that was in its queue before the step
+   is still there, in the same order, at the front: nothing is lost, nothing is reordered, what
+   the step queued comes after it.  (Holds whether or not it had a connection before.) *)
+Theorem queue_kept_stepx q h o sid s s' :
+  Inv h -> get_sess h sid = Some s -> get_sess (fst (stepx q h o)) sid = Some s' -> s_conn s' = None ->
+  exists l, s_pending s' = s_pending s ++ l.
+Proof.
+  intros I Hs Hs' Hc'. assert (Hle : sid <= h_nextsid h) by (apply (inv_ids h I); eexists; exact Hs).
+  destruct (s_core _ _ _ (srel_stepx q sid h o) Hle s' Hs') as [[s0 [Hs0 [[_ [l [Hp _]]]|[_ [l Hp]]]]]|[Hne _]].
+  - assert (s0 = s) by congruence. subst s0. eauto.
+  - assert (s0 = s) by congruence. subst s0. eauto.
+  - contradiction.
+Qed.
+
+Theorem queue_grows_step h o sid s s' :
+  Inv h -> get_sess h sid = Some s -> s_conn s = None ->
+  get_sess (fst (step h o)) sid = Some s' -> s_conn s' = None ->
+  exists l, s_pending s' = s_pending s ++ l.
+Proof. intros I Hs _. exact (queue_kept_stepx false h o sid s s' I Hs). Qed.
+Theorem queue_grows_qstep h o sid s s' :
+  Inv h -> get_sess h sid = Some s -> s_conn s = None ->
+  get_sess (fst (qstep h o)) sid = Some s' -> s_conn s' = None ->
+  exists l, s_pending s' = s_pending s ++ l.
+Proof. intros I Hs _. exact (queue_kept_stepx true h o sid s s' I Hs). Qed.
+
+(* a connected session never has anything queued *)
+Theorem connected_queue_empty h sid s c : Inv h -> get_sess h sid = Some s -> s_conn s = Some c -> s_pending s = [].
+Proof. intros I Hs Hc. apply (inv_conn h I sid s Hs). congruence. Qed.
+
+(* the session has no connection after every op of the segment *)
+Fixpoint stays_disc (q : bool) (sid : N) (h : hub) (ops : list op) : Prop :=
+  match ops with
+  | [] => True
+  | o :: r => disc (fst (stepx q h o)) sid /\ stays_disc q sid (fst (stepx q h o)) r
+  end.
+(* what one step appended, and what the segment appended *)
+Definition delta (h h' : hub) (sid : N) : list smsg := skipn (length (pend h sid)) (pend h' sid).
+Fixpoint appended (q : bool) (sid : N) (h : hub) (ops : list op) : list smsg :=
+  match ops with
+  | [] => []
+  | o :: r => delta h (fst (stepx q h o)) sid ++ appended q sid (fst (stepx q h o)) r
+  end.
+
+Lemma skipn_length_app {A} (a l : list A) : skipn (length a) (a ++ l) = l.
+Proof. induction a; cbn; auto. Qed.
+
+Lemma delta_stepx q h o sid :
+  Inv h -> live h sid -> disc (fst (stepx q h o)) sid ->
+  pend (fst (stepx q h o)) sid = pend h sid ++ delta h (fst (stepx q h o)) sid.
+Proof.
+  intros I [s Hs] [s' [Hs' Hc']]. destruct (queue_kept_stepx q h o sid s s' I Hs Hs' Hc') as [l Hl].
+  unfold delta, pend. rewrite Hs, Hs', Hl, skipn_length_app. reflexivity.
+Qed.
+
+Lemma stays_disc_end q sid ops : forall h, disc h sid -> stays_disc q sid h ops -> disc (runx q h ops) sid.
+Proof.
+  induction ops as [|o r IH]; intros h Hd Hst; cbn [runx]; [exact Hd|].
+  destruct Hst as [Hd1 Hr]. now apply IH.
+Qed.
+
+(* over a segment during which the session has no connection: the queue at the end is the queue
+   at the start followed by what the steps appended, in step order *)
+Theorem queue_over_segment q sid ops : forall h,
+  Inv h -> live h sid -> stays_disc q sid h ops ->
+  pend (runx q h ops) sid = pend h sid ++ appended q sid h ops.
+Proof.
+  induction ops as [|o r IH]; intros h I Hl Hst; cbn [runx appended]; [now rewrite app_nil_r|].
+  destruct Hst as [Hd Hr].
+  rewrite (IH _ (inv_stepx q h o I) (disc_live _ _ Hd) Hr), (delta_stepx q h o sid I Hl Hd).
+  now rewrite app_assoc.
+Qed.
+
+(* ------------------------------------------------------------------ 2. what is appended is what was sent *)
+(* the session that receives what is sent to sid: a virtual session's internal client *)
+Definition target (h : hub) (sid : N) : N :=
+  match get_sess h sid with
+  | Some s => match s.(s_kind) with KVirtual p _ => p | _ => sid end
+  | None => sid
+  end.
+(* the per-session filter: joins already announced are dropped *)
+Definition filtered (t : session) (m : smsg) : option smsg :=
+  match m with
+  | SJoin l => match fst (filter_seen t.(s_seen) l) with [] => None | keep => Some (SJoin keep) end
+  | _ => Some m
+  end.
+Definition seen_after (t : session) (m : smsg) : session :=
+  match m with
+  | SJoin l => sess_seen t (snd (filter_seen t.(s_seen) l))
+  | SLeave l => sess_seen t (fold_left (fun acc x => nrem x acc) l t.(s_seen))
+  | _ => t
+  end.
+
+Lemma seen_after_proj t m :
+  s_conn (seen_after t m) = s_conn t /\ s_pending (seen_after t m) = s_pending t.
+Proof. destruct m; split; reflexivity. Qed.
+
+Lemma deliver_to_session_eq h x m t : get_sess h x = Some t ->
+  deliver_to_session h x m =
+  match filtered t m with
+  | None => (put_sess h x (seen_after t m), [])
+  | Some mm => match s_conn t with
+               | Some c => (put_sess h x (seen_after t m), [ToConn c mm])
+               | None => (put_sess h x (sess_pending (seen_after t m) (s_pending t ++ [mm])), [])
+               end
+  end.
+Proof.
+  intros Ht. unfold deliver_to_session, filtered, seen_after. rewrite Ht.
+  destruct m; try reflexivity.
+  destruct (filter_seen (s_seen t) l) as [keep seen']. cbn [fst snd]. destruct keep; reflexivity.
+Qed.
+
+Lemma send_session_eq h sid m :
+  send_session h sid m =
+  let '(h1, outs) := deliver_to_session h (target h sid) m in
+  match outs with
+  | [ToConn c mm] => if is_closing h1 c mm then let '(h2, outs2) := close_conn h1 c in (h2, outs ++ outs2) else (h1, outs)
+  | _ => (h1, outs)
+  end.
+Proof. reflexivity. Qed.
+
+Lemma get_put_same h x s : get_sess (put_sess h x s) x = Some s.
+Proof. unfold get_sess, put_sess. cbn [h_sessions set_sessions]. apply aget_aset_same. Qed.
+
+(* no connection: nothing is written anywhere, exactly the (filtered) message is appended *)
+Theorem send_to_disconnected h sid m t :
+  get_sess h (target h sid) = Some t -> s_conn t = None ->
+  snd (send_session h sid m) = [] /\
+  exists t', get_sess (fst (send_session h sid m)) (target h sid) = Some t' /\ s_conn t' = None /\
+             s_pending t' = s_pending t ++ match filtered t m with Some mm => [mm] | None => [] end.
+Proof.
+  intros Ht Hc. destruct (seen_after_proj t m) as [Hsc Hsp].
+  rewrite send_session_eq, (deliver_to_session_eq h _ m t Ht), Hc.
+  destruct (filtered t m) as [mm|]; cbv beta iota zeta; cbn [fst snd]; (split; [reflexivity|]);
+    eexists; (split; [apply get_put_same|]).
+  - split; [cbn; congruence|reflexivity].
+  - split; [congruence|]. rewrite app_nil_r. exact Hsp.
+Qed.
+
+Lemma filtered_never_closing t m mm : filtered t m = Some mm -> never_closing m = true -> never_closing mm = true.
+Proof.
+  unfold filtered. destruct m; intros H Hn; try (injection H as <-; exact Hn).
+  destruct (fst (filter_seen (s_seen t) l)); [discriminate|]. injection H as <-. reflexivity.
+Qed.
+
+(* a connection: exactly one copy of the (filtered) message is written to it, the queue stays empty;
+   (bye and a disinvite for the current room additionally close the connection: not covered here) *)
+Theorem send_to_connected h sid m t c :
+  get_sess h (target h sid) = Some t -> s_conn t = Some c -> never_closing m = true ->
+  snd (send_session h sid m) = match filtered t m with Some mm => [ToConn c mm] | None => [] end /\
+  exists t', get_sess (fst (send_session h sid m)) (target h sid) = Some t' /\ s_conn t' = Some c /\
+             s_pending t' = s_pending t.
+Proof.
+  intros Ht Hc Hn. destruct (seen_after_proj t m) as [Hsc Hsp].
+  rewrite send_session_eq, (deliver_to_session_eq h _ m t Ht), Hc.
+  destruct (filtered t m) as [mm|] eqn:Hf; cbv beta iota zeta.
+  - rewrite (is_closing_never _ c mm (filtered_never_closing t m mm Hf Hn)). cbn [fst snd].
+    split; [reflexivity|]. eexists. split; [apply get_put_same|]. split; congruence.
+  - cbn [fst snd]. split; [reflexivity|]. eexists. split; [apply get_put_same|]. split; congruence.
+Qed.
+
+(* the same for a message that is not a join notice, in the words of the property *)
+Corollary send_plain_to_disconnected h sid m t :
+  get_sess h (target h sid) = Some t -> s_conn t = None -> (forall l, m <> SJoin l) ->
+  snd (send_session h sid m) = [] /\
+  exists t', get_sess (fst (send_session h sid m)) (target h sid) = Some t' /\ s_conn t' = None /\
+             s_pending t' = s_pending t ++ [m].
+Proof.
+  intros Ht Hc Hm. destruct (send_to_disconnected h sid m t Ht Hc) as [Ho [t' [Ht' [Hc' Hp']]]].
+  split; [exact Ho|]. exists t'. split; [exact Ht'|]. split; [exact Hc'|]. rewrite Hp'.
+  destruct m; try reflexivity. exfalso. eapply Hm; reflexivity.
+Qed.
+
+(* ------------------------------------------------------------------ 3. resume delivers the queue once *)
+(* The connection of a session is cut, the session has no connection after each of the following
+   ops (any ops, any number), then it resumes: the resume answers with the same session id followed
+   by exactly the messages that were appended to the queue since the cut, in order, once; the queue
+   is empty afterwards and the session is attached to the new connection. *)
+Theorem drop_then_resume q h0 c0 cn0 sid ops c cn :
+  Good h0 -> aget (h_conns h0) c0 = Some cn0 -> c_sess cn0 = Some sid ->
+  stays_disc q sid h0 (ODrop c0 :: ops) ->
+  let hj := runx q h0 (ODrop c0 :: ops) in
+  aget (h_conns hj) c = Some cn -> c_sess cn = None -> throttled hj (c_addr cn) ACT_RESUME = false ->
+  (forall s, get_sess hj sid = Some s -> is_virtual (s_kind s) = false) ->
+  exists s, get_sess hj sid = Some s /\ s_conn s = None /\
+  let '(h', outs) := step hj (OHello c (HResume (IdPriv sid))) in
+  outs = ToConn c (SHello sid (sess_userid hj sid s)) :: map (ToConn c) (appended q sid h0 (ODrop c0 :: ops)) /\
+  (exists s', get_sess h' sid = Some s' /\ s_conn s' = Some c /\ s_pending s' = [] /\ s_room s' = s_room s) /\
+  nmem sid (h_expired h') = false.
+Proof.
+  intros [W I] Hc0 Hcs0 Hst hj Hc Hcs Hth Hnv. subst hj.
+  destruct (wf_conns _ _ h0 W c0 cn0 sid Hc0 Hcs0) as [s0 [Hs0 Hcn0]].
+  assert (Hp0 : pend h0 sid = []).
+  { unfold pend. rewrite Hs0. apply (inv_conn h0 I sid s0 Hs0). congruence. }
+  assert (Hlive0 : live h0 sid) by (eexists; exact Hs0).
+  pose proof (queue_over_segment q sid (ODrop c0 :: ops) h0 I Hlive0 Hst) as Hq. rewrite Hp0 in Hq. cbn [app] in Hq.
+  assert (Hd : disc (runx q h0 (ODrop c0 :: ops)) sid).
+  { cbn [stays_disc] in Hst. destruct Hst as [Hd1 Hr]. cbn [runx]. now apply stays_disc_end. }
+  destruct Hd as [s [Hs Hcn]]. exists s. split; [exact Hs|]. split; [exact Hcn|].
+  pose proof (resume_flushes_queue _ c cn sid s Hc Hcs Hs (Hnv s Hs) Hcn Hth) as HR.
+  destruct (step (runx q h0 (ODrop c0 :: ops)) (OHello c (HResume (IdPriv sid)))) as [h' outs].
+  destruct HR as (Ho & Hs' & He). split; [|split; assumption].
+  rewrite Ho. unfold pend in Hq. rewrite Hs in Hq. rewrite Hq. reflexivity.
+Qed.
+
+(* the general form: from any state in which the session is live *)
+Theorem resume_after_segment q h sid ops c cn :
+  Inv h -> live h sid -> ops <> [] -> stays_disc q sid h ops ->
+  let hj := runx q h ops in
+  aget (h_conns hj) c = Some cn -> c_sess cn = None -> throttled hj (c_addr cn) ACT_RESUME = false ->
+  (forall s, get_sess hj sid = Some s -> is_virtual (s_kind s) = false) ->
+  exists s, get_sess hj sid = Some s /\
+  snd (step hj (OHello c (HResume (IdPriv sid)))) =
+    ToConn c (SHello sid (sess_userid hj sid s)) :: map (ToConn c) (pend h sid ++ appended q sid h ops) /\
+  pend (fst (step hj (OHello c (HResume (IdPriv sid))))) sid = [].
+Proof.
+  intros I Hl Hne Hst hj Hc Hcs Hth Hnv. subst hj.
+  pose proof (queue_over_segment q sid ops h I Hl Hst) as Hq.
+  assert (Hd : disc (runx q h ops) sid).
+  { destruct ops as [|o r]; [contradiction|]. cbn [stays_disc] in Hst. destruct Hst as [Hd1 Hr]. cbn [runx]. now apply stays_disc_end. }
+  destruct Hd as [s [Hs Hcn]]. exists s. split; [exact Hs|].
+  pose proof (resume_flushes_queue _ c cn sid s Hc Hcs Hs (Hnv s Hs) Hcn Hth) as HR.
+  destruct (step (runx q h ops) (OHello c (HResume (IdPriv sid)))) as [h' outs].
+  destruct HR as (Ho & [s' (Hs' & _ & Hp' & _)] & _). cbn [fst snd]. split.
+  - rewrite Ho. unfold pend in Hq. rewrite Hs in Hq. rewrite Hq. reflexivity.
+  - unfold pend. rewrite Hs'. exact Hp'.
+Qed.
